@@ -257,11 +257,25 @@ template <int S> static void explore(Ctx &c, long &id) {
   }
 }
 
+// long splines: segment counts around a power of two (blocked / unrolled loops and dimension-specific kernels change behaviour exactly
+// there); the reference Jacobian is taken in windows of 12 durations
+template <int S> static void explore_long(Ctx &c, long &id) {
+  const bool th = c.args.thorough();
+  for (int N : {31, 32, 33, 64}) for (int pat = 0; pat < 2; ++pat) {
+    long my = id++; if (N == 64 && !th) continue; if (!c.mine(my)) continue; std::string unit = str(my); if (!c.begin(unit)) continue;
+    const double *L = letters(S); std::vector<double> T(N); for (int i = 0; i < N; ++i) T[i] = pat == 0 ? L[1] : ((i & 1) ? L[1] : L[1] * 0.5);
+    RefJac J = ref_jacobian(S, T); Runner<S> r(c, unit, J); r.run_case(N, T, pat ? -2.5 : 1024.125);
+    ++c.st.evaluations; if (!c.st.seen(fmt("long/S%d/N%d/%d", S, N, pat))) ++c.st.nontrivial; c.st.cls(fmt("%s/long (N around 32, 64)", order_name(S)));
+    if (N == 32) c.st.sample(fmt("unit %ld: %s D=%d N=%d %s durations: the same comparisons against the exact Jacobian (jets in windows of 12 durations)", my, order_name(S), D, N, pat ? "alternating" : "uniform"));
+  }
+}
+
 int main(int argc, char **argv) {
   Args a = parse_args(argc, argv);
   return supervise(a, [&](Ctx &c) {
     long id = 0;
     explore<2>(c, id); explore<3>(c, id); explore<4>(c, id);
+    explore_long<2>(c, id); explore_long<3>(c, id); explore_long<4>(c, id);
     c.st.notes["dim"] = str(D);
   });
 }
